@@ -6,6 +6,7 @@ import Wormhole.Tie.Srv
 import Wormhole.Tie.SrvStmts
 import Wormhole.Tie.SrvWs
 import Wormhole.Tie.SrvSumm
+import Wormhole.Tie.SrvTop
 
 namespace Wormhole.Tie
 open Wormhole Wormhole.PySrv
